@@ -480,20 +480,25 @@ class DiffXReader(object):
 
         # First, determine the line endings that we're going to be working
         # with.
-        if line_endings:
-            # An explicit line ending type was specified. Validate it and
-            # get the newline characters, encoding it for the byte string.
-            try:
+        try:
+            if line_endings:
+                # An explicit line ending type was specified. Validate it and
+                # get the newline characters, encoding it for the byte
+                # string.
                 newline = get_newline_for_type(line_endings,
                                                encoding=encoding)
-            except ValueError as e:
-                raise DiffXParseError(str(e),
-                                      linenum=self._linenum)
-        else:
-            # An explicit line ending type was not specified. Try to determine
-            # the appropriate line ending based on the first line of content.
-            line_endings, newline = guess_line_endings(content,
-                                                       encoding=encoding)
+            else:
+                # An explicit line ending type was not specified. Try to
+                # determine the appropriate line ending based on the first
+                # line of content.
+                line_endings, newline = guess_line_endings(
+                    content,
+                    encoding=encoding)
+        except (LookupError, TypeError, ValueError) as e:
+            # Either the line endings or the encoding are not ones we can
+            # work with.
+            raise DiffXParseError(str(e),
+                                  linenum=self._linenum)
 
         lines = split_lines(data=content,
                             newline=newline,
